@@ -4,10 +4,10 @@ import (
 	"bytes"
 	"encoding/hex"
 	"encoding/json"
-	"os"
 	"errors"
 	"fmt"
 	"math/rand/v2"
+	"os"
 	"regexp"
 	"runtime"
 	"sort"
@@ -105,7 +105,7 @@ type ckptRec struct {
 	id     uint64
 	handle recovery.CheckpointHandle
 	snap   map[string]string
-	db     int // instance that took it
+	db     int               // instance that took it
 	files  map[string]string // referenced file URI -> content fingerprint at checkpoint time
 }
 
